@@ -238,3 +238,11 @@ def run(ctx):
     r3(ctx)
     r4(ctx)
     r5(ctx)
+
+
+def extra(tier, repo, work, insts):
+    """E5 compile-fail witnesses (thorough tier)"""
+    if tier != "thorough":
+        return []
+    from engine.side import witnesses
+    return witnesses("C19", repo, work)
